@@ -19,6 +19,7 @@ from . import symcommon as sc
 from .c02 import oracle_classes, exact_ops, apply
 
 TOL = 1.0e-5
+MODEL = []  # (driver line, implementation coremap, setting) of the whole-list cases
 LAST = {}  # expected partition / eps of the most recent whole-list case (for replay files)
 
 
@@ -216,6 +217,16 @@ def constraints_case(ck, sg, st, SymmetryConstraints):
     own = [owner[i] for i in order]
     scs = SymmetryConstraints(sg, pos) if eps is None else SymmetryConstraints(sg, pos, eps=eps)
     TOLc = TOL if eps is None else eps
+    # model line: the exact (noise-free) listing for DS.Partition.coremap
+    from .c02 import lcm
+
+    q = 1
+    for i in order:
+        for v in pts[i]:
+            q = lcm(q, Fraction(v).denominator)
+    D = 24 * q
+    MODEL.append(("con.partition %d %d %s" % (sg.number, q, " ".join(str(int(Fraction(pts[i][j]) * D)) for i in order for j in range(3))),
+                  {g: sorted(v) for g, v in scs.coremap.items()}, sg.number))
     # expected partition: positions grouped by owning orbit, generator = first listed
     exp = {}
     for i, o in enumerate(own):
@@ -372,6 +383,24 @@ def run(ck):
                 ck.fail("constraints:%s" % sg.number, "SymmetryConstraints(%s #%s): %s" % (sg.short_name, sg.number, prob),
                         {"kind": "input", "setting": sg.number, "positions": pos, "detail": prob, "stream": "constraints",
                          "expected_coremap": LAST.get("expected"), "eps": LAST.get("eps")})
+    # model of the orbit partition vs the implementation's coremap
+    mlines = [m for m in MODEL if m[2] in translated]
+    try:
+        mouts = common.driver([m[0] for m in mlines]) if mlines else []
+    except common.DriverBroken as e:
+        mouts = None
+        ck.notes.append("driver unavailable for con.partition: %s" % str(e)[:200])
+    if mouts:
+        for (ln, impl_cm, num), o in zip(mlines, mouts):
+            ck.coverage["traces_validated_against_impl"] += 1
+            try:
+                mc = {int(e.split(":")[0]): sorted(int(x) for x in e.split(":")[1].split(",")) for e in o.split(";")} if o else {}
+            except Exception:
+                mc = None
+            if mc != impl_cm:
+                ck.fail("partition-model:%s" % num, "DS.Partition.coremap disagrees with SymmetryConstraints.coremap for #%s: model %r, implementation %r" % (num, mc, impl_cm),
+                        {"kind": "correspondence", "driver_line": ln[:3000], "model": o[:1000], "theorem": "correspondence stream con.partition"}, no_failing_input=True)
+    del MODEL[:]
     ndir = 0
     for sg in sgs.SpaceGroupList:
         st = allstrata.get(sg.number)
